@@ -91,6 +91,7 @@ package store
 //@ func (*Store).validateAndRecoverODS
 //@   property C07 C05
 //@   requires s != nil
+//@   effect $Revalidated := true
 //@   havoc $CacheDropped $LinkGone $Complete $RmErr $CreateErr $ValidOK
 //@   ensures err == nil ==> $Complete
 //@   ensures err == nil ==> $ValidOK || $CacheDropped
@@ -105,11 +106,32 @@ package store
 //@   ensures err == nil ==> $Complete
 //@   ensures result0 ==> err == nil
 
+// An ODS-only put that finds the block's ODS file already there ($Revalidated) may be looking at what an
+// interrupted ODS+Q4 put left behind: the Q4 file of that put, if there is one and it is not complete,
+// would be picked up by the lazily opened Q4 accessor and served. Such a put succeeds only after the
+// leftover Q4 file was checked and, unless complete or absent, removed ($Q4Clean).
+//@ extern (*github.com/celestiaorg/celestia-node/store.Store).dropPartialQ4
+//@   effect $Q4Clean := err == nil
+// (body view of dropPartialQ4: the file checked is this block's Q4 file, against this square; "complete" and
+// "does not exist" leave it alone, anything else removes it - for this height and hash - and a failed
+// removal fails the put. $Q4Bad: the size check failed with something other than "does not exist".)
+//@ extern local github.com/celestiaorg/celestia-node/store/file.ValidateQ4Size
+//@   effect $Q4Bad := err != nil && !is(err, os.ErrNotExist)
+//@ func (*Store).dropPartialQ4
+//@   property C07 C15
+//@   noframe
+//@   requires s != nil && roots != nil
+//@   havoc $Q4Bad $CacheDropped $Complete $RmErr
+//@   callpre file.ValidateQ4Size: pathKind($arg0) == 2 && pathHash($arg0) == share.DataHash(dahHash(deref(roots))) && $arg1 == square
+//@   callpre Store).removeQ4: $Q4Bad && $arg1 == height && $arg2 == share.DataHash(dahHash(deref(roots)))
+//@   ensures err == nil && $Q4Bad ==> !$RmErr
+//@   ensures $Q4Bad ==> err != nil || !$RmErr
 //@ func (*Store).createODSFile
 //@   property C07 C15
 //@   noframe
-//@   havoc $Complete $CacheDropped $LinkGone $FdOpen $RmErr $CreateErr $Linked $ValidOK
-//@   requires s != nil && !$Complete && !$FdOpen
+//@   havoc $Complete $CacheDropped $LinkGone $FdOpen $RmErr $CreateErr $Linked $ValidOK $Revalidated $Q4Clean
+//@   requires s != nil && !$Complete && !$FdOpen && !$Revalidated
+//@   ensures err == nil && $Revalidated ==> $Q4Clean
 //@   callpre Store).linkHeight: $Complete
 //@   ensures err == nil ==> $Complete
 //@   ensures result0 ==> err == nil
@@ -125,8 +147,8 @@ package store
 //@ func (*Store).put
 //@   property C07 C15
 //@   noframe
-//@   havoc $Complete $CacheDropped $LinkGone $FdOpen $RmErr $CreateErr $Linked $AccOpen $ValidOK $StreamEnded
-//@   requires s != nil && roots != nil && !$Complete && !$FdOpen && $EmptyComplete
+//@   havoc $Complete $CacheDropped $LinkGone $FdOpen $RmErr $CreateErr $Linked $AccOpen $ValidOK $StreamEnded $Revalidated $Q4Clean
+//@   requires s != nil && roots != nil && !$Complete && !$FdOpen && $EmptyComplete && !$Revalidated
 //@   callpre Store).linkHeight: $arg1.IsEmptyEDS()
 //@   callpre Store).createODSQ4File: writeQ4 && $arg3 == height && $arg2 == roots && $arg1 == square
 //@   callpre Store).createODSFile: !writeQ4 && $arg3 == height && $arg2 == roots && $arg1 == square
@@ -135,14 +157,14 @@ package store
 //@ func (*Store).PutODSQ4
 //@   property C07 C15
 //@   noframe
-//@   requires s != nil && roots != nil && !$Complete && !$FdOpen && $EmptyComplete
+//@   requires s != nil && roots != nil && !$Complete && !$FdOpen && $EmptyComplete && !$Revalidated
 //@   callpre Store).put: $arg5 && $arg3 == height && $arg2 == roots && $arg4 == square
 //@   ensures err == nil ==> $Complete || share.DataHash(dahHash(deref(roots))).IsEmptyEDS()
 
 //@ func (*Store).PutODS
 //@   property C07 C15
 //@   noframe
-//@   requires s != nil && roots != nil && !$Complete && !$FdOpen && $EmptyComplete
+//@   requires s != nil && roots != nil && !$Complete && !$FdOpen && $EmptyComplete && !$Revalidated
 //@   callpre Store).put: !$arg5 && $arg3 == height && $arg2 == roots && $arg4 == square
 //@   ensures err == nil ==> $Complete || share.DataHash(dahHash(deref(roots))).IsEmptyEDS()
 
